@@ -12,6 +12,8 @@ open CogentModel.C12Tables
 /-- canonical nucleotide sequence -/
 def Canon (s : List Char) : Prop := ∀ c ∈ s, c ∈ GCSpec.bases
 
+instance (s : List Char) : Decidable (Canon s) := inferInstanceAs (Decidable (∀ c ∈ s, c ∈ GCSpec.bases))
+
 /-! ## one codon through the modelled converters -/
 
 def plusOf (seq : List Char) (a b c : Char) : Char :=
